@@ -66,4 +66,18 @@ theorem kill_run (P : Prog) (c : Cfg) (s : Sig) (rest : List Instr) (hc : c.code
   · simp [step, raise_eq, unwind_sysexit, preRaise, Cfg.write, Cfg.trace]
   · simp [step]
 
+
+/-- the case of a signal handler: the remaining handlers of the signal are next, the loop state is untouched -/
+theorem raise_err_handler (c : Cfg) (body K : List Instr) (s : Sig) (i : Nat)
+    (hcode : c.code = body ++ .catchHandler :: .dispatch s (i + 1) :: K) (hbody : ∀ i ∈ body, errCatch i = none) :
+    ∃ c', c.raise .err = .ok c' ∧ c'.code = .dispatch s (i + 1) :: K ∧
+      c'.tr = (if c.L.forceQuit then Tr.dropped { id := c.nextSid + 1, cls := .exception, prio := -20, src := .loop }
+               else .enq (c.L.route .loop) { id := c.nextSid + 1, cls := .exception, prio := -20, src := .loop }) :: c.tr ∧
+      c'.L.handlers = c.L.handlers ∧ c'.L.levels = c.L.levels ∧ c'.L.active = c.L.active ∧
+      c'.L.runLoop = c.L.runLoop ∧ c'.L.forceQuit = c.L.forceQuit ∧ c'.L.tickets = c.L.tickets ∧
+      c'.A = c.A ∧ c'.log = c.log := by
+  refine ⟨_, raise_err_caught c body _ .catchHandler .loop hcode hbody rfl, rfl, ?_, ?_⟩
+  · simp only [enqueue_eq, enqT, excSig]
+  · simp [enqueue_eq]
+
 end Simpleline.Dispatch
